@@ -145,7 +145,7 @@ Lemma inv_create s a t k dense d : inv s -> 1 <= k -> inv (fst (do_create s a t 
 Proof.
   intros Hi Hk. unfold do_create.
   destruct (match lookup a (attrs s) with Some _ => create_keeps_existing | None => false end); [exact Hi|].
-  unfold mk_default. destruct d as [c|].
+  unfold mk_default, default_is_scalar. destruct d as [c|].
   - destruct (kind_of c) as [td|]; [|exact Hi]. destruct (default_type_bad td t); [exact Hi|]. simpl.
     apply inv_with_heap_attr; [exact Hi|apply heap_ext_refl|].
     destruct Hi as [H0 _].
@@ -332,7 +332,7 @@ Proof.
   destruct (match lookup a (attrs s) with Some _ => register_keeps_existing | None => false end); [exact Hi|].
   destruct (negb (Z.of_nat (length rows) =? sn s)) eqn:Sh; [exact Hi|]. destruct (sn s =? 0); [exact Hi|].
   assert (Ln : Z.of_nat (length rows) = sn s) by lia.
-  unfold mk_default. destruct d as [c|].
+  unfold mk_default, default_is_scalar. destruct d as [c|].
   - destruct (kind_of c) as [td|]; [|exact Hi]. destruct (default_type_bad td t); [exact Hi|]. simpl.
     apply inv_with_heap_attr; [exact Hi|apply heap_ext_refl|].
     split; [exact Hk|]. split; [exact I|]. simpl. auto.
